@@ -39,7 +39,11 @@ func globMatch(pat, s string) bool {
 }
 
 func selected(fs FuncSel, o *Obl) bool {
-	tag := o.Kind + ":" + o.Label
+	kind := o.Kind
+	if kind == "probe" {
+		kind = "post" // the probe of a masked postcondition goes wherever the postcondition goes
+	}
+	tag := kind + ":" + o.Label
 	for _, p := range fs.Skip {
 		if globMatch(p, tag) {
 			return false
